@@ -17,7 +17,7 @@ EXPLANATION = (
     "exactly one result with the translated type, names from the docstring else result_1..n, ids well-formed and "
     "distinct, and the rendered result list (real _create_result_string, parsed by the recogniser) mirrors the API "
     "results. (grouping) the real _create_inferred_results on every sorted set of <= 2 (quick) / 3 (thorough) inferred "
-    "return types (plain or tuples of <= 2/3 over 4 leaf types) with 0-2 result docstrings: every returned type at "
+    "return types (plain or tuples of <= 2/3 over 2/4 leaf types; three return types with the quick item pool) with 0-2 result docstrings: every returned type at "
     "every position is covered by the result at that position; ids distinct; no exception. (inferred) un-annotated "
     "functions whose body nests one 'return <literal | tuple | conditional expression>' in every combination (depth "
     "2) of if/else/elif, try/except/else/finally, for/else, while/else, with, match: the return statement is found "
@@ -31,7 +31,7 @@ ASSUMPTIONS = [
     "mixed named/unnamed result docstrings are excluded (the statement does not fix the numbering)",
     "returned expressions: int/str/bool literals, a 2-tuple of literals, and a conditional expression of literals",
 ]
-BOUNDS = {"quick": "statement nesting depth 2, one return per body; grouping: <= 2 return types", "thorough": "grouping: <= 3 return types, tuples of <= 3"}
+BOUNDS = {"quick": "statement nesting depth 2, one return per body; grouping: <= 2 return types", "thorough": "grouping: <= 2 return types with tuples of <= 3 over 4 leaf types, 3 return types with the quick item pool (plain or tuples of <= 2 over 2 leaf types)"}
 MANIFEST = {
     "text": "Bounded symbolic: result construction, grouping of inferred results and the return-statement search are "
             "executed by CrossHair on every shape within the bound and compared with the statement's clauses.",
